@@ -53,7 +53,8 @@ func (c15) Info(tier string) fw.Info {
 		Assumptions: []string{
 			"the order in which the compiler visits modules (Go map iteration) cannot be set from outside: it is sampled by repetition with permuted insertion orders, not enumerated",
 			"global initialisers must be constant, so a module's initialisation is observed through the host call that loads its singleton",
-			"name clashes between an import and a local definition, templates, triggers and impl blocks are outside the generated fragment",
+			"name clashes between an import and a local definition, impl blocks and the use of templates and triggers are outside the generated fragment (only their import from user modules is probed)",
+			"Go iterates a small map as a rotation of its insertion order: the analysed module map is therefore re-inserted in all permutations in turn before it is handed to the compiler",
 		},
 		Exhaustive:   true,
 		CaseTimeoutS: 60,
@@ -62,6 +63,24 @@ func (c15) Info(tier string) fw.Info {
 }
 
 func (c15) Cases(tier string, seed uint64) []fw.Case { return buildCases(tier, seed) }
+
+// Finalize publishes graph-level counts: a case bundles up to 8 executed or 32 rejected graphs, all
+// graphs of a run are distinct (deduplicated when the case list is built).
+func (c15) Finalize(tier string, results []fw.Result, coverage map[string]any) string {
+	var graphs, nontrivial, runs int64
+	for _, r := range results {
+		graphs += r.Obs["graphs"]
+		nontrivial += r.Obs["nontrivial_graphs"]
+		runs += r.Obs["vm_runs"]
+	}
+	coverage["graphs"] = graphs
+	coverage["distinct_nontrivial_graphs"] = nontrivial
+	coverage["bound"] = Bound(tier)
+	if runs == 0 {
+		return "no graph was executed on the VM"
+	}
+	return ""
+}
 
 // ---------------------------------------------------------------------------------------------
 
@@ -487,15 +506,21 @@ func runGraph(c fw.Case, g *Graph, poison bool) (res fw.Result) {
 	}()
 
 	var ao drive.AnalyzeOut
+	panicked := false
 	func() {
 		defer func() {
 			if r := recover(); r != nil {
+				panicked = true
 				v.fail("analyzer:go-panic:"+util.NormPanic(fmt.Sprint(r)), fmt.Sprintf("the analyzer panicked: %v", r), detail)
 			}
 		}()
 		ao = drive.Analyze(src, g.Mods[0].Name, true)
 		judgeDiagnostics(g, lk, rd, ao, v)
 	}()
+	if panicked {
+		v.res.Nontrivial = true
+		return v.res
+	}
 	edges := 0
 	for _, mn := range lk.ReachSeq {
 		edges += len(g.mod(mn).Imports)
@@ -599,7 +624,7 @@ func runGraph(c fw.Case, g *Graph, poison bool) (res fw.Result) {
 	if edges > 0 {
 		v.res.Cover = append(v.res.Cover, "ran:linked")
 	}
-	if h := fw.HashOf(g.Mods); h[0] == '0' && h[1] < '2' {
+	if h := fw.HashOf(g.Mods); edges > 1 && h[0] == '0' && h[1] < '4' {
 		v.res.Sample = map[string]any{"graph": Describe(g), "source": rd.Src, "expected_output": want, "tags": c.Tags}
 	}
 	return v.res
